@@ -520,6 +520,31 @@ class Ctx:
         return rc
 
 
+class Hang(Exception):
+    pass
+
+
+class time_limit:
+    """Watchdog for in-process calls into the implementation (SIGALRM)."""
+
+    def __init__(self, seconds):
+        self.seconds = seconds
+
+    def __enter__(self):
+        import signal
+
+        def handler(signum, frame):
+            raise Hang(f'no result within {self.seconds} s')
+        self.old = signal.signal(signal.SIGALRM, handler)
+        signal.setitimer(signal.ITIMER_REAL, self.seconds)
+
+    def __exit__(self, *a):
+        import signal
+        signal.setitimer(signal.ITIMER_REAL, 0)
+        signal.signal(signal.SIGALRM, self.old)
+        return False
+
+
 def setup_ddsmt(argv=None):
     """Import ddsmt from REPO inside this process (harness side)."""
     import multiprocessing
